@@ -80,7 +80,7 @@ CLAIMS = {
             'technique': 'AST pattern with embedded positive example, registry comparison, boolean-table evaluation, guard-chain queries'},
     'C01': {
         'text': 'each emitted constraint comes from the statistic its verifier reads and the default arm holds at equality; sign closure '
-                'over the six orderings (CLOSE, incl. the exact disjunct of the fuzzy comparators); rexpy's own guarantees for rex constraints (REX-*: the C03 rules); one cache key / one classifier / one flag set on both sides (SHARED); no store into '
+                'over the six orderings (CLOSE, incl. the exact disjunct of the fuzzy comparators); the guarantees of rexpy for rex constraints (REX-*: the C03 rules); one cache key / one classifier / one flag set on both sides (SHARED); no store into '
                 'the verified frame from a verifier (CACHE); date writer language is included in the reader regexes, group counts, '
                 'integer-only conversion (DATELANG); ' + IEF + ' discover_df/verify_df/detect_df/to_json/load.',
         'technique': 'def-use closures between sibling implementations, finite-domain evaluation, regular-language inclusion on extracted regex constants, definite-assignment walk',
